@@ -6,12 +6,19 @@
    (eqk A B)                → …                                                              kinds
    (dictf (K0 K1 …) K)      → (hit i) | none | raises     lookup of K in {K0: 0, K1: 1, …}    features as keys
    (dicts (K0 K1 …) K)      → …                                                              sources as keys
+   (schema (D0 D1 …))       → ((ok ((name kind)…) <table class name> <rebuilt from its reduced form: same>) | grammar-bases |
+                               grammar-field | type-error | skipped …)   one answer per class statement
+                               D = (decl|meta|fields|record name (base…) ((key noname|(name n) kind)…))
+   (schemaeq F G)           → (eq <F == G> <hashes agree>)      F, G = ((name kind)…), `Schema.__eq__` / `__hash__`
+   (kindorder (p0 p1 …))    → ((class id)…)     instances returned by a history of primitive kind instantiations
+   (reflect V)              → kind | none       `kind.reflect` of a python value
    every line may be wrapped as (let ((x sexp) …) body), `$x` atoms are substituted.
    Hashes are evaluated in the free environment (`freeEnv`): equal only where congruence and `pyIntHash` force it. -/
 import ForML.Model.Sexp
 import ForML.Model.Dsl
 import ForML.Model.DslEq
 import ForML.Model.DslIdent
+import ForML.Model.DslSchema
 open ForML ForML.Dsl
 
 def eqResSexp : EqRes → Sexp
@@ -62,6 +69,33 @@ def stepC08 (line : Sexp) : Sexp :=
       match ks.mapM Source.ofSexp, Source.ofSexp k with
       | some ks, some k => lookupSexp (dictGet (fun s => s.H freeEnv) (Source.identEq cf0) (indexed ks) k)
       | _, _ => .atom "bad-op"
+    | .list [.atom "schema", .list ds] =>
+      match ds.mapM Decl.ofSexp with
+      | some ds =>
+        let h := buildAll ds
+        let again := buildAll (encode ds h)
+        .list ((List.range ds.length).map fun i =>
+          match ds[i]?, (h[i]? : Option (Except SchemaErr Cls)) with
+          | some d, some (Except.ok c) =>
+            .list [.atom "ok", fieldsToSexp (resolve h c.mro), .atom d.tableName,
+              Sexp.ofBool (decide (again.cls? i = some c) && decide (again.fields i = h.fields i))]
+          | _, some (Except.error e) => .atom e.wire
+          | _, _ => .atom "bad-op")
+      | none => .atom "bad-op"
+    | .list [.atom "schemaeq", a, b] =>
+      match fieldsOfSexp a, fieldsOfSexp b with
+      | some a, some b => .list [.atom "eq", Sexp.ofBool (schemaEq a b), Sexp.ofBool (decide (fieldsH freeEnv a = fieldsH freeEnv b))]
+      | _, _ => .atom "bad-op"
+    | .list [.atom "kindorder", .list ps] =>
+      match ps.mapM (fun p => match p with | .atom s => Prim.ofWire s | _ => none) with
+      | some ps => .list ((KReg.empty.run ps).map fun o => .list [.atom o.cls.wire, Sexp.ofNat o.id])
+      | none => .atom "bad-op"
+    | .list [.atom "reflect", v] =>
+      match PyVal.ofSexp v with
+      | some v => match v.reflect with
+        | some k => k.toSexp
+        | none => .atom "none"
+      | none => .atom "bad-op"
     | _ => .atom "bad-op"
 
 def main : IO Unit := driverLoop stepC08
